@@ -7,10 +7,9 @@ on one receiver versus the Lean model `runReHistory` (lean/Splipy/Model/Reparam.
 `Basis.reparam`, `Obj.reverse`, `Obj.swap`).  Observables after EVERY call (also a failed one, the
 receiver may be partially modified): exception class, `returns_self` (the call returned the receiver),
 knot vectors, control points, periodicity, rationality.
-The model mirrors the CODE (`MODEL_REVERSE_MODE = MODEL_SWAP_MODE = 'code'`: control points only
-flipped on a periodic direction, `swap` on a curve returns None).  Setting either to 'spec' makes the
-model follow the property instead (flip + roll by k+1 / swap returns the receiver) — to be used after
-a `fix:` commit of the corresponding defect.
+The model mirrors the code as repaired by 4fe14f6 (`reverse` on a periodic direction flips AND rolls the
+control points by k+1; `Obj.reverse = Obj.reverseSpec` is a theorem) and 4f754a8 (`swap` on a curve returns
+the receiver, still before validating the directions).
 
 Oracle (model independent, real objects only): before every call the receiver is cloned; after it
   reverse(d):  new(.., a+b-t, ..) == old(.., t, ..) on p+1 points per knot span and at every knot
@@ -39,12 +38,8 @@ from vlib.compare import diff, Err, exc_kind
 ID = 'C06'
 RTOL = 1e-9
 ATOL = 1e-11
-# The model mirrors the CODE for the two known defects; set to 'spec' once the defect is fixed in /repo
-# (then the model follows the property: flip + roll by k+1 / swap on a curve returns the receiver).
-MODEL_REVERSE_MODE = 'code'
-MODEL_SWAP_MODE = 'code'
-RULE = ('histories of 1-6 calls over reverse/swap/reparam on random objects (pardim 1-3, rational or not, open/periodic '
-        'directions, orders 1-4, non-square nets); direction spellings 0/1/2, u/v/w, U/V/W, defaults, keywords, invalid '
+RULE = ('histories of 1-6 calls over reverse/swap/reparam on random objects (pardim 1-3, rational or not, open (clamped) / '
+        'unclamped or half-clamped non-periodic / periodic directions, orders 1-4, non-square nets); direction spellings 0/1/2, u/v/w, U/V/W, defaults, keywords, invalid '
         '(3, -1, x, uv, "", "0", W on a surface ...); reparam(*tuples) with fewer/equal/more tuples than directions, '
         'reparam(direction=..) with 0/1/2 tuples, tuples of wrong length; intervals: unit, negative, huge (to 2^41), small '
         '(to 2^-10), shifted with |s|/(e-s) up to 2^10, end <= start.  distinct = distinct protocol lines; non-trivial = at '
@@ -53,7 +48,8 @@ REQUIRED_TAGS = ['op=reverse', 'op=swap', 'op=reparam', 'pardim=1', 'pardim=2', 
                  'spell=int', 'spell=lower', 'spell=upper', 'spell=invalid', 'spell=default', 'spell=keyword',
                  'conv=A', 'conv=A-short', 'conv=A-long', 'conv=A-none', 'conv=B', 'conv=B-noargs',
                  'interval=negative', 'interval=huge', 'interval=small', 'interval=invalid', 'interval=bad-arity',
-                 'err:ValueError', 'partial-mutation', 'reverse-periodic', 'swap-curve', 'swap-same-dir', 'len>=4']
+                 'err:ValueError', 'partial-mutation', 'reverse-periodic', 'reverse-nonopen', 'nonopen-dir', 'swap-curve', 'swap-same-dir',
+                 'len>=4']
 
 CLASS_REVERSE_PERIODIC = 'reverse-periodic-flip-only'
 CLASS_SWAP_CURVE = 'swap-curve-returns-none'
@@ -282,9 +278,23 @@ def _rand_op(rng, pardim, invalid=0.08, kinds=None):
     return {'op': 'reparam', 'args': args, 'direction': _tok(rng, pardim, invalid_prob=invalid)}
 
 
-def _rand_obj(rng, pardim, periodic_prob=0.35):
-    return gen.rand_object(rng, pardim=pardim, pmax=4 if pardim < 3 else 3, max_interior=3 if pardim == 1 else 2 if pardim == 2 else 1,
-                           periodic_prob=periodic_prob, dim=rng.choice([2, 3]) if pardim < 3 else 3)
+def _is_open(b):
+    p, kn = b['order'], b['knots']
+    return b['periodic'] < 0 and all(x == kn[0] for x in kn[:p]) and all(x == kn[-1] for x in kn[-p:])
+
+
+def _rand_obj(rng, pardim, periodic_prob=0.35, nonopen_prob=0.3):
+    """Random object; non-periodic directions are unclamped / half-clamped with probability nonopen_prob
+    (then knots[0]+knots[-1] != start+end in general)."""
+    pmax = 4 if pardim < 3 else 3
+    max_interior = 3 if pardim == 1 else 2 if pardim == 2 else 1
+    dim = rng.choice([2, 3]) if pardim < 3 else 3
+    rational = rng.random() < 0.4
+    bases = [gen.any_basis(rng, pmax=pmax, periodic_prob=periodic_prob, nonopen_prob=nonopen_prob,
+                           n_interior=rng.randint(0, max_interior)) for _ in range(pardim)]
+    shape = [gen.basis_info(b)['n'] for b in bases]
+    ncomp = dim + (1 if rational else 0)
+    return {'bases': bases, 'cps': gen.rand_cps(rng, shape, ncomp, rational), 'rational': bool(rational)}
 
 
 def _periodic_obj(rng, pardim):
@@ -299,13 +309,13 @@ _LINE = {'bases': [{'order': 2, 'knots': [0.0, 0.0, 1.0, 1.0], 'periodic': -1}],
 
 def generate(rng, tier):
     specs = []
-    # minimal reproducers of the known failure classes come first (they are the ones reported)
+    # minimal instances of the (former) failure classes come first (they are the ones reported if a defect returns)
     # 1. the instance of theorem C06_reverse_periodic_flip_only_refuted (Properties/C06.lean), replayed on the real code
     specs.append({'family': 'lean-refutation-instance',
                   'obj': {'bases': [{'order': 2, 'knots': [-1.0, 0.0, 1.0, 2.0, 3.0], 'periodic': 0}],
                           'cps': [[0.0], [1.0]], 'rational': False},
                   'ops': [{'op': 'reverse', 'dir': 0}]})
-    # 2. Curve().swap() returns None
+    # 2. Curve().swap() must return the curve
     specs.append({'family': 'curve-swap', 'obj': _LINE, 'ops': [{'op': 'swap', 'dirs': []}]})
     # 3. Curve().reparam((0, 2^-34)): evaluation snaps with the absolute knot tolerance
     if INCLUDE_TINY:
@@ -396,7 +406,7 @@ def _enc_op(op):
 
 
 def model_line(s):
-    return line('c06_history', gen.enc_object(s['obj']), Word(MODEL_REVERSE_MODE), Word(MODEL_SWAP_MODE), [_enc_op(op) for op in s['ops']])
+    return line('c06_history', gen.enc_object(s['obj']), [_enc_op(op) for op in s['ops']])
 
 
 def _call(obj, op):
@@ -875,6 +885,8 @@ def tags(s, res):
         out.add('rational')
     if any(b['periodic'] >= 0 for b in o['bases']):
         out.add('periodic-dir')
+    if any(b['periodic'] < 0 and not _is_open(b) for b in o['bases']):
+        out.add('nonopen-dir')
     if len(s['ops']) >= 4:
         out.add('len>=4')
     for op in s['ops']:
@@ -915,6 +927,7 @@ def tags(s, res):
     if isinstance(impl, list):
         prev_knots = [list(b['knots']) for b in o['bases']]
         prev_per = [b['periodic'] for b in o['bases']]
+        prev_open = [_is_open(b) for b in o['bases']]
         for op, st in zip(s['ops'], impl):
             if isinstance(st, list) and st and isinstance(st[0], Err):
                 out.add('err:' + st[0].kind)
@@ -925,9 +938,12 @@ def tags(s, res):
                 d = _valid_dir(0 if op.get('dir') is None else op['dir'], pd)
                 if d is not None and prev_per[d] >= 0:
                     out.add('reverse-periodic')
+                if d is not None and prev_per[d] < 0 and not prev_open[d]:
+                    out.add('reverse-nonopen')
             if isinstance(st, list) and len(st) == 3:
                 prev_knots = [list(b[1]) for b in st[2][0]]
                 prev_per = [b[2] for b in st[2][0]]
+                prev_open = [_is_open({'order': b[0], 'knots': b[1], 'periodic': b[2]}) for b in st[2][0]]
     return sorted(out)
 
 
